@@ -722,7 +722,17 @@ def _script_case(ck, P, script, pending):
     pending.append((case, trace, final, {"op": "script", "P": wire_P(P), "events": wire}))
 
 
+def _quiet():
+    import warnings
+
+    import numpy as np
+
+    warnings.simplefilter("ignore")
+    np.seterr(all="ignore")
+
+
 def run(ck):
+    _quiet()
     ck.rule = ("stoppers {Idle, Constant, SuccessiveHalving, Median} x parameters of the property's quantifier "
                "(max_steps {4,9,27}, min_steps {1,2,3}, reduction_factor {2,3,4}, min_early_stopping_rate {0,1}, interval_steps {1,2,3}, "
                "min_competing {0..3}, min_fully_completed {0,1,2}, epsilon {1e-10, 0, 0.25}) x curve families "
@@ -767,10 +777,10 @@ def run(ck):
                 for fam in ("dominating", "crossing", "failures"):
                     if P["kind"] in ("const", "idle") and fam != "failures":
                         continue
-                    ex_plan.append((P, 2, 4, fam, rng.randrange(1 << 30), 400))
-            for P in key_params:
-                for fam in ("dominating", "failures"):
-                    ex_plan.append((P, 3, 3, fam, rng.randrange(1 << 30), 400))
+                    ex_plan.append((P, 2, 4, fam, rng.randrange(1 << 30), 800))
+            for P in key_params + more_params[:4]:
+                for fam in ("dominating", "crossing", "failures"):
+                    ex_plan.append((P, 3, 3, fam, rng.randrange(1 << 30), 800))
         if ck.thorough:
             with ProcessPoolExecutor(max_workers=min(14, os.cpu_count() or 2)) as pool:
                 for res in pool.map(_ex_worker, ex_plan, chunksize=1):
@@ -779,7 +789,7 @@ def run(ck):
             for item in ex_plan:
                 _fold(ck, _ex_worker(item, drv))
         # (b) sequential + random interleavings, larger systems
-        nrand = ck.pick(350, 5000)
+        nrand = ck.pick(700, 5000)
         for t in range(nrand):
             P = gen_params(rng)
             njobs = rng.randint(1, 6)
@@ -798,7 +808,7 @@ def run(ck):
             if len(pending) >= 200:
                 _flush(ck, drv, pending)
         # (c) raw scripts (off-protocol included): correspondence only
-        for P, script in gen_scripts(rng, ck.pick(400, 4000)):
+        for P, script in gen_scripts(rng, ck.pick(800, 4000)):
             _script_case(ck, P, script, pending)
             if len(pending) >= 200:
                 _flush(ck, drv, pending)
@@ -811,6 +821,7 @@ def _ex_worker(item, drv=None):
 
     P, nj, ln, fam, seed, cap = item
     common.use_repo_sources()
+    _quiet()
     rng = random.Random(seed)
     curves = curve_families(rng, nj, ln, fam)
     res = {"cases": [], "fails": [], "mismatch": [], "counts": {}}
@@ -885,6 +896,7 @@ def _fold(ck, res):
 
 
 def replay(ck, case):
+    _quiet()
     with ck.driver() as drv:
         pending = []
         if "script" in case:
